@@ -3,7 +3,10 @@
    caller's B and S matrices to the cells of the full M and S matrices (port map, sorted port map for
    M, abbreviated matrices), the *_given[] flags, zero fill, the union-find connectivity closure, and
    the selection of the equations.  The m_is_diagonal branch (dead code: no entry point sets it,
-   candidate D18) is not modelled.  Numeric work (b a^-1) is not part of this model.  No proofs here. *)
+   candidate D18) is not modelled.  Numeric work (b a^-1) is not part of this model; what is modelled
+   of the measured values is WHERE they go: the map m_cell_map from the cells of the caller's B (or M)
+   matrix to the cells of vnm_m_matrix (ms_m_cells) and the copy loop that uses it (store_m).
+   No proofs here. *)
 Require Import List ZArith Bool Arith.
 Require Import LV.Gen.LayoutGen LV.Cal.TermsModel.
 Import ListNotations.
@@ -26,12 +29,17 @@ Record add_args := mkArgs {
 
 Record equation := mkEq { e_row : nat; e_col : nat; e_terms : list term }.
 
-Record measurement := mkMeas {
+Record measurement := mkMeasurement {
   ms_m_given : list bool;             (* full_m_matrix[cell] != NULL, cells by rows *)
   ms_s : list scell;                  (* vnm_s_matrix *)
   ms_conn : option (list bool);       (* vnm_connectivity_matrix, None for T16/U16 *)
-  ms_eqs : list equation
+  ms_eqs : list equation;
+  ms_m_cells : list nat               (* m_cell_map[]: for every cell of the caller's B (M) matrix, by rows,
+                                         the cell of vnm_m_matrix its values are stored in *)
 }.
+(* a measurement record without the cell map (place holders and hand-made examples of the numeric files) *)
+Definition mkMeas (g : list bool) (s : list scell) (c : option (list bool)) (e : list equation) : measurement :=
+  mkMeasurement g s c e [].
 
 Inductive outcome :=
 | Rejected (check : nat)      (* EINVAL: which check of the C code refused the call *)
@@ -100,6 +108,43 @@ Fixpoint check_map (l : list Z) (idx : Z) (max_port : Z) (seen : list Z)
       check_map r (idx + 1)%Z max_port (port :: seen) s_rows s_cols full
   end.
 
+(* rows and columns of the full M matrix the rows / columns of the caller's B matrix stand for: the
+   SORTED port map m_port_map (qsort) when the matrix is abbreviated, the identity otherwise *)
+Definition m_port_map_of (a : add_args) : list Z :=
+  match aa_map a with
+  | Some mp => sort_z (firstn (Z.to_nat (Z.max (aa_s_rows a) (aa_s_cols a))) mp)
+  | None => []
+  end.
+
+Definition m_rows_of_args (a : add_args) : list nat :=
+  let nbr := Z.to_nat (aa_b_rows a) in
+  match aa_map a with
+  | Some _ => map (fun b_row => if zlt (aa_b_rows a) (Z.of_nat (aa_mr a))
+                                then Z.to_nat (nth b_row (m_port_map_of a) 1%Z - 1) else b_row) (seq 0 nbr)
+  | None => seq 0 nbr
+  end.
+
+Definition m_cols_of_args (a : add_args) : list nat :=
+  let nbc := Z.to_nat (aa_b_cols a) in
+  match aa_map a with
+  | Some _ => map (fun b_col => if zlt (aa_b_cols a) (Z.of_nat (aa_mc a))
+                                then Z.to_nat (nth b_col (m_port_map_of a) 1%Z - 1) else b_col) (seq 0 nbc)
+  | None => seq 0 nbc
+  end.
+
+(* m_cell_map[b_row * b_columns + b_column] = full_m_row * full_m_columns + full_m_column;
+   without a port map the cell map is the identity on 0 .. b_cells-1 (as coded) *)
+Definition m_cell_map (a : add_args) : list nat :=
+  match aa_map a with
+  | Some _ => flat_map (fun r => map (fun c => r * aa_mc a + c) (m_cols_of_args a)) (m_rows_of_args a)
+  | None => seq 0 (Z.to_nat (aa_b_rows a) * Z.to_nat (aa_b_cols a))
+  end.
+
+(* the copy loop (a_matrix == NULL):  for b_cell: full_m_matrix[m_cell_map[b_cell]] = copy of b_matrix[b_cell];
+   cells not written stay NULL.  V stands for the vector of values of one cell. *)
+Definition store_m {V : Type} (ncells : nat) (cells : list nat) (b : list V) : list (option V) :=
+  fold_left (fun m kb => upd m (fst kb) (Some (snd kb))) (combine cells b) (repeat None ncells).
+
 Definition add_common (a : add_args) : outcome :=
   let ty := aa_ty a in
   let fmr := aa_mr a in let fmc := aa_mc a in
@@ -149,24 +194,10 @@ Definition add_common (a : add_args) : outcome :=
     end in
   let nbr := Z.to_nat b_rows in let nbc := Z.to_nat b_cols in
   let nsr := Z.to_nat s_rows in let nsc := Z.to_nat s_cols in
-  (* rows and columns of the full M matrix the B matrix stands for *)
-  let m_port_map := match aa_map a with Some mp => sort_z (firstn nsp mp) | None => [] end in
-  let m_rows_of : list nat :=
-    match aa_map a with
-    | Some _ => map (fun b_row => if zlt b_rows zfmr then Z.to_nat (nth b_row m_port_map 1%Z - 1) else b_row) (seq 0 nbr)
-    | None => seq 0 nbr
-    end in
-  let m_cols_of : list nat :=
-    match aa_map a with
-    | Some _ => map (fun b_col => if zlt b_cols zfmc then Z.to_nat (nth b_col m_port_map 1%Z - 1) else b_col) (seq 0 nbc)
-    | None => seq 0 nbc
-    end in
-  (* without a port map the cell map is the identity on 0 .. b_cells-1 (as coded) *)
-  let m_cells : list nat :=
-    match aa_map a with
-    | Some _ => flat_map (fun r => map (fun c => r * fmc + c) m_cols_of) m_rows_of
-    | None => seq 0 (nbr * nbc)
-    end in
+  (* rows and columns of the full M matrix the B matrix stands for, and the cell map *)
+  let m_rows_of : list nat := m_rows_of_args a in
+  let m_cols_of : list nat := m_cols_of_args a in
+  let m_cells : list nat := m_cell_map a in
   let m_row_given := map (fun r => existsb (Nat.eqb r) m_rows_of) (seq 0 fmr) in
   let m_col_given := map (fun c => existsb (Nat.eqb c) m_cols_of) (seq 0 fmc) in
   let m_given := map (fun cell => existsb (Nat.eqb cell) m_cells) (seq 0 (fmr * fmc)) in
@@ -227,9 +258,10 @@ Definition add_common (a : add_args) : outcome :=
   | Some (_, BAssert w) => Aborts (10 + w)
   | Some _ => Aborts 4
   | None =>
-      Accepted (mkMeas m_given s3 conn
+      Accepted (mkMeasurement m_given s3 conn
                   (map (fun x => mkEq (fst (fst x)) (snd (fst x))
-                                      (match snd x with BOk l => l | _ => [] end)) built))
+                                      (match snd x with BOk l => l | _ => [] end)) built)
+                  m_cells)
   end
   end.
 
